@@ -264,6 +264,10 @@ func checkCase(c Case) (verr error) {
 						arg := tag
 						if op.Kind == "failcall" {
 							arg = "fail:" + tag
+							if op.DelayUS%7 != 0 || op.Pad > 0 {
+								// the method fails with words of the library's own
+								arg = fmt.Sprintf("failas:%d:%s", (op.Target+op.DelayUS)%len(probe.LibraryErrorTexts), tag)
+							}
 							rec.tag = arg
 						}
 						var cancel context.CancelFunc
